@@ -74,6 +74,9 @@ pub struct AOp {
     /// 2 an environment variable set when the argument is defined, 3 `--probe=cand` on a clone of the command
     #[serde(default)]
     pub via: u8,
+    /// use the panicking convenience API (`get_one`, `remove_one`, ...) and catch the panic
+    #[serde(default)]
+    pub panicking: bool,
 }
 
 #[derive(Clone, Debug, Hash, Serialize, Deserialize, PartialEq)]
@@ -243,6 +246,82 @@ macro_rules! typed_access {
     };
 }
 
+/// The same accesses through the panicking convenience API (`get_one`, `remove_many`, ...): a wrong type or
+/// an unknown id panics by documented design; the panic is caught by the caller (the simulated application)
+/// and the stored values must be as undisturbed as after a failing `try_` call.
+macro_rules! typed_access_panicking {
+    ($m:expr, $acc:expr, $id:expr, $t:ty) => {
+        match $acc {
+            Acc::GetOne => match $m.get_one::<$t>($id) {
+                Some(v) => Got::One(format!("{:?}", v)),
+                None => Got::NoneV,
+            },
+            Acc::GetMany => match $m.get_many::<$t>($id) {
+                Some(v) => Got::Many(v.map(|x| format!("{:?}", x)).collect()),
+                None => Got::NoneV,
+            },
+            Acc::GetOccurrences => match $m.get_occurrences::<$t>($id) {
+                Some(v) => Got::Occ(v.map(|g| g.map(|x| format!("{:?}", x)).collect()).collect()),
+                None => Got::NoneV,
+            },
+            Acc::RemoveOne => match $m.remove_one::<$t>($id) {
+                Some(v) => Got::One(format!("{:?}", v)),
+                None => Got::NoneV,
+            },
+            Acc::RemoveMany => match $m.remove_many::<$t>($id) {
+                Some(v) => Got::Many(v.map(|x| format!("{:?}", x)).collect()),
+                None => Got::NoneV,
+            },
+            Acc::RemoveOccurrences => match $m.remove_occurrences::<$t>($id) {
+                Some(v) => Got::Occ(v.map(|g| g.map(|x| format!("{:?}", x)).collect()).collect()),
+                None => Got::NoneV,
+            },
+            _ => Got::NoneV,
+        }
+    };
+}
+
+fn access_panicking(m: &mut ArgMatches, acc: Acc, id: &str, ty: Ty) -> Got {
+    if acc == Acc::Clear {
+        // there is no panicking variant of try_clear_id
+        return access(m, acc, id, ty);
+    }
+    let r = catch(|| match acc {
+        Acc::GetRaw => match m.get_raw(id) {
+            Some(v) => Got::Many(v.map(|x| esc(x.as_bytes())).collect()),
+            None => Got::NoneV,
+        },
+        Acc::Contains => Got::Bool(m.contains_id(id)),
+        _ => match ty {
+            Ty::Str => typed_access_panicking!(m, acc, id, String),
+            Ty::Os => typed_access_panicking!(m, acc, id, OsString),
+            Ty::Path => typed_access_panicking!(m, acc, id, PathBuf),
+            Ty::I64 => typed_access_panicking!(m, acc, id, i64),
+            Ty::U16 => typed_access_panicking!(m, acc, id, u16),
+            Ty::U8 => typed_access_panicking!(m, acc, id, u8),
+            Ty::Bool => typed_access_panicking!(m, acc, id, bool),
+            Ty::I8 => typed_access_panicking!(m, acc, id, i8),
+            Ty::I16 => typed_access_panicking!(m, acc, id, i16),
+            Ty::I32 => typed_access_panicking!(m, acc, id, i32),
+            Ty::U32 => typed_access_panicking!(m, acc, id, u32),
+            Ty::U64 => typed_access_panicking!(m, acc, id, u64),
+        },
+    });
+    match r {
+        Ok(g) => g,
+        Err(p) => {
+            if p.msg.contains("Could not downcast") {
+                Got::Err("Downcast")
+            } else if p.msg.contains("Unknown argument or group id") || p.msg.contains("is not a valid argument or group ID") {
+                Got::Err("UnknownArgument")
+            } else {
+                // any other panic belongs to the code under simulation
+                std::panic::panic_any(format!("{} at {}", p.msg, p.loc))
+            }
+        }
+    }
+}
+
 fn group_ids(m: &ArgMatches, id: &str) -> Option<Vec<String>> {
     m.try_get_many::<clap::Id>(id).ok().flatten().map(|v| v.map(|x| x.as_str().to_string()).collect())
 }
@@ -346,6 +425,7 @@ impl Engine for AccessSim {
                 ask: if rng.chance(2, 5) { Some(*rng.pick(&[Ty::Str, Ty::Os, Ty::Path, Ty::I64, Ty::U16, Ty::U8, Ty::Bool, Ty::I32, Ty::U64])) } else { None },
                 cand: None,
                 via: 0,
+                panicking: rng.chance(1, 4),
             })
             .collect();
         let mut ops: Vec<AOp> = ops;
@@ -359,7 +439,7 @@ impl Engine for AccessSim {
             let cand = lang_candidate(rng, a);
             let at = rng.usize(ops.len() + 1);
             let via = rng.weighted(&[4, 2, 3, 3]) as u8;
-            ops.insert(at, AOp { on_clone: false, acc: Acc::Lang, id: IdSel::Arg(k), ask: None, cand: Some(cand), via });
+            ops.insert(at, AOp { on_clone: false, acc: Acc::Lang, id: IdSel::Arg(k), ask: None, cand: Some(cand), via, panicking: false });
         }
         C04Sc { spec, argv, depth: rng.below(3) as u8, ops }
     }
@@ -638,7 +718,12 @@ fn exec_access(sc: &C04Sc, log: &mut Log, out: &mut Outcome) {
         shape.add(op.acc as u64 * 8 + ask as u64);
         let target = if op.on_clone { &mut copy } else { &mut orig };
         let group_before = if op.id == IdSel::Group { Some(group_ids(target, &id)) } else { None };
-        let got = access(target, op.acc, &id, ask);
+        let got = if op.panicking {
+            out.count("op.access_through_panicking_api");
+            access_panicking(target, op.acc, &id, ask)
+        } else {
+            access(target, op.acc, &id, ask)
+        };
         let group_after = if op.id == IdSel::Group { Some(group_ids(target, &id)) } else { None };
         let is_typed = !matches!(op.acc, Acc::GetRaw | Acc::Contains | Acc::Clear);
         let is_remove = matches!(op.acc, Acc::RemoveOne | Acc::RemoveMany | Acc::RemoveOccurrences);
